@@ -353,7 +353,7 @@ def run(chk, replay=None):
             c, msg = min(lst, key=lambda x: (len(all_runs[x[0].cid].trace), x[0].cid))
             fid = "F-4" if key == looplib.F4_KEY else "F-3"
             if key in known:
-                chk.known(key, "key=%s %s %s [%d runs; witness %s]" % (key, fid, known[key]["text"], len(lst), c.cid))
+                chk.known(key, "key=%s %s [%d runs; witness %s]" % (key, known[key]["text"], len(lst), c.cid))
             else:
                 p, msg2 = shrink_and_write(c, msg, key, "finding_%s.case" % key)
                 coq = ("Coq: C05_dtor_never_touches_destroyed_loop_refuted (model witness of the same schedule)" if key == looplib.F4_KEY else
@@ -381,9 +381,9 @@ def run(chk, replay=None):
             small = vlib.Case(c.cid, schedlib.set_source(c.header, schedlib.list_source(sched)), c.ops)
             rr = RL.run_impl([small], jobs=1)[small.cid]
             v2 = R.run_model([small], {small.cid: rr})[small.cid]
+            names = ("C04_Model", "EventLoop") if kind_of(c) == "loop" else ("C05_Model", "EventLoopThread")
             what.append("trace validation %s vs the real %s broken: %s (%d of %d traces rejected); the oracle holds on all runs"
-                        % (("C04_Model", "EventLoop") if kind_of(c) == "loop" else ("C05_Model", "EventLoopThread"),
-                           v2 if not v2.startswith("accepted") else v, len(corr_bad), len(loops) + len(elts)))
+                        % (names[0], names[1], v2 if not v2.startswith("accepted") else v, len(corr_bad), len(loops) + len(elts)))
             body += small.text() + "".join("# " + l + "\n" for l in rr.lines[-40:])
         p = chk.write_replay("broken_obligation.txt", "\n".join("# " + w for w in what) + "\n" + body +
                              ("\n--- coq log tail ---\n" + pr["log"][-3000:] if not pr["ok"] else ""))
